@@ -123,9 +123,71 @@ pub fn set_now_secs(now: u64) -> (u64, i128) {
 }
 #[cfg(not(kani))]
 pub fn set_now_secs(now: u64) -> (u64, i128) {
+    // with the LD_PRELOAD clock shim the real-time clock is pinned to the model's `now` exactly
+    if clock::available() {
+        clock::reset();
+        clock::push_real(now, 0);
+        clock::arm(true);
+        unsafe { NOW_S = now };
+        return (now, 0);
+    }
     let real = std::time::SystemTime::now().duration_since(std::time::UNIX_EPOCH).map(|d| d.as_secs()).unwrap_or(0);
     unsafe { NOW_S = real };
     (real, real as i128 - now as i128)
+}
+
+/// control of clock_gettime through /verif/lib/native/clockshim.c (native replay only)
+#[cfg(not(kani))]
+pub mod clock {
+    use std::ffi::c_void;
+    unsafe extern "C" {
+        fn dlsym(handle: *mut c_void, symbol: *const u8) -> *mut c_void;
+    }
+    fn sym(name: &'static [u8]) -> *mut c_void {
+        unsafe { dlsym(std::ptr::null_mut(), name.as_ptr()) }
+    }
+    pub fn available() -> bool {
+        !sym(b"verif_clock_push\0").is_null()
+    }
+    pub fn reset() {
+        let p = sym(b"verif_clock_reset\0");
+        if !p.is_null() {
+            let f: extern "C" fn() = unsafe { std::mem::transmute(p) };
+            f();
+        }
+    }
+    pub fn arm(on: bool) {
+        let p = sym(b"verif_clock_arm\0");
+        if !p.is_null() {
+            let f: extern "C" fn(i32) = unsafe { std::mem::transmute(p) };
+            f(on as i32);
+        }
+    }
+    fn push(which: i32, s: u64, ns: u32) {
+        let p = sym(b"verif_clock_push\0");
+        if !p.is_null() {
+            let f: extern "C" fn(i32, i64, i64) = unsafe { std::mem::transmute(p) };
+            f(which, s as i64, ns as i64);
+        }
+    }
+    /// next reading of Instant::now()
+    pub fn push_mono(s: u64, ns: u32) {
+        push(0, s, ns)
+    }
+    /// next reading of SystemTime::now()
+    pub fn push_real(s: u64, ns: u32) {
+        push(1, s, ns)
+    }
+    /// an Instant with the given absolute monotonic reading (requires the shim)
+    pub fn instant_at(s: u64, ns: u32) -> std::time::Instant {
+        reset();
+        push_mono(s, ns);
+        arm(true);
+        let i = std::time::Instant::now();
+        arm(false);
+        reset();
+        i
+    }
 }
 pub fn shift_ts(ts: u64, delta: i128) -> u64 {
     let v = ts as i128 + delta;
